@@ -625,8 +625,6 @@ impl DPEventLoop {
           .available_builtin_endpoints
           .contains(*endpoint)
         {
-          let reader_proxy = discovered_participant.as_reader_proxy(true, Some(*reader_eid));
-
           // Get the QoS for the built-in topic from the local writer
           let mut qos = writer.qos();
           // special case by RTPS 2.3 spec Section
@@ -639,6 +637,11 @@ impl DPEventLoop {
           {
             qos.reliability = Some(policy::Reliability::BestEffort);
           };
+
+          // The proxy carries the QoS too: the writer waits for the acknowledgments
+          // of its reliable readers only.
+          let reader_proxy =
+            discovered_participant.as_reader_proxy(true, Some(*reader_eid), qos.clone());
 
           writer.update_reader_proxy(&reader_proxy, &qos);
           debug!(
